@@ -2991,3 +2991,691 @@ func ruleArgsView(c *Ctx, r *Rep) {
 		r.Undecided("census", token.NoPos, "no use of a user callback found in option.go")
 	}
 }
+
+// ---------------------------------------------------------------------------------------------------------------------
+
+func init() {
+	reg(&Rule{ID: "R-C09-freshnode", Props: []string{"C09", "C06"}, Floor: 20,
+		Doc: "no grammar action returns a package-level node: the suffix and operator actions extend the node they are given in place ($1.(*Term).SuffixList = append(…)), which is only sound when every action builds its own node",
+		Run: ruleFreshNode})
+	reg(&Rule{ID: "R-C10-bigdemote", Props: []string{"C10"}, Floor: 2,
+		Doc: "every (*big.Int).Int64 / Uint64 call is dominated by IsInt64 / IsUint64 of the same receiver: any other size test (BitLen against the word size) is off by one at 2^63",
+		Run: ruleBigDemote})
+}
+
+func ruleFreshNode(c *Ctx, r *Rep) {
+	p := c.Gojq
+	info := p.TypesInfo
+	n := 0
+	for _, f := range p.Syntax {
+		if c.PhysFile(f.Pos()) != "parser.go" {
+			continue
+		}
+		ast.Inspect(f, func(q ast.Node) bool {
+			as, ok := q.(*ast.AssignStmt)
+			if !ok || len(as.Lhs) != 1 || len(as.Rhs) != 1 {
+				return true
+			}
+			sel, ok := unparen(as.Lhs[0]).(*ast.SelectorExpr)
+			if !ok || sel.Sel.Name != "value" || c.Src(sel.X) != "yyVAL" {
+				return true
+			}
+			n++
+			rhs := unparen(as.Rhs[0])
+			if u, ok := rhs.(*ast.UnaryExpr); ok && u.Op == token.AND {
+				rhs = unparen(u.X)
+			}
+			if id, ok := rhs.(*ast.Ident); ok {
+				if v, ok := info.Uses[id].(*types.Var); ok && v.Parent() == p.Types.Scope() {
+					r.Bad(fmt.Sprintf("action:%s", id.Name), as.Pos(), "a grammar action returns the package-level node %s: later actions extend the node they receive in place, so one query's suffixes would be appended to every use of the shared node, in this and every other parse (`. .a` changes what `.` means)", id.Name)
+					return true
+				}
+			}
+			return true
+		})
+	}
+	if n < 20 {
+		r.Undecided("census", token.NoPos, "only %d grammar actions assigning yyVAL.value found in parser.go", n)
+		return
+	}
+	for i := 0; i < n; i++ {
+		r.OK(fmt.Sprintf("action#%d", i), token.NoPos, "action builds its own node or passes on the one it was given")
+	}
+}
+
+func ruleBigDemote(c *Ctx, r *Rep) {
+	n := 0
+	for _, p := range []*packages.Package{c.Gojq, c.Cli} {
+		info := p.TypesInfo
+		for _, fd := range c.Decls(p) {
+			if fd.Body == nil {
+				continue
+			}
+			walkStack(fd.Body, func(q ast.Node, stack []ast.Node) bool {
+				call, ok := q.(*ast.CallExpr)
+				if !ok {
+					return true
+				}
+				sel, ok := unparen(call.Fun).(*ast.SelectorExpr)
+				if !ok || (sel.Sel.Name != "Int64" && sel.Sel.Name != "Uint64") || !isNamed(derefType(info.TypeOf(sel.X)), "math/big", "Int") {
+					return true
+				}
+				n++
+				want := c.Src(sel.X) + ".Is" + sel.Sel.Name + "()"
+				guarded := false
+				for i := len(stack) - 1; i >= 0 && !guarded; i-- {
+					switch b := stack[i].(type) {
+					case *ast.IfStmt:
+						if b.Body.Pos() <= call.Pos() && call.End() <= b.Body.End() && strings.Contains(c.Src(b.Cond), want) && !strings.Contains(c.Src(b.Cond), "!"+want) {
+							guarded = true
+						}
+					case *ast.BlockStmt:
+						for _, st := range b.List {
+							if st.End() > call.Pos() {
+								break
+							}
+							if ifs, ok := st.(*ast.IfStmt); ok && strings.Contains(c.Src(ifs.Cond), "!"+want) && endsInReturn(ifs.Body) {
+								guarded = true
+							}
+						}
+					}
+				}
+				r.Check(guarded, fmt.Sprintf("demote:%s:%s", declKey(fd), c.Src(call)), call.Pos(), "%s in %s is under `%s`: %v (Int64 of a value outside the range is undefined; a width test such as BitLen() <= 64 admits 2^63 … 2^64−1, which wrap)", c.Src(call), declKey(fd), want, guarded)
+				return true
+			})
+		}
+	}
+	if n == 0 {
+		r.Undecided("census", token.NoPos, "no (*big.Int).Int64 call found")
+	}
+}
+
+// ---------------------------------------------------------------------------------------------------------------------
+
+func init() {
+	reg(&Rule{ID: "R-C11-comparedispatch", Props: []string{"C11", "C03"}, Floor: 1,
+		Doc: "every return of Compare is the one binopTypeSwitch dispatch: a fast path in front of it is a second comparison algorithm for some pair of representations, and the order stops being one relation (`-0` against `0` as literals vs through every other route)",
+		Run: ruleCompareDispatch})
+	reg(&Rule{ID: "R-C15-haltstatus", Props: []string{"C15"}, Floor: 3,
+		Doc: "in the per-input loop of cli.process the error that decides the exit status is always the current one (err = e with e the error just seen): a halt on a later input reports its own status even when an earlier input failed",
+		Run: ruleHaltStatus})
+	reg(&Rule{ID: "R-C16-fileverbatim", Props: []string{"C16"}, Floor: 1,
+		Doc: "the text of a query file (-f) reaches the parser as read: string(src) of os.ReadFile's result, with nothing applied to it (passing the file equals passing its text)",
+		Run: ruleFileVerbatim})
+}
+
+func ruleCompareDispatch(c *Ctx, r *Rep) {
+	fd := c.Decl(c.Gojq, "Compare")
+	if fd == nil {
+		r.Undecided("anchor", token.NoPos, "Compare not found")
+		return
+	}
+	info := c.Gojq.TypesInfo
+	n, bad := 0, 0
+	var visit func(n ast.Node) bool
+	visit = func(q ast.Node) bool {
+		if _, isLit := q.(*ast.FuncLit); isLit {
+			return false
+		}
+		rs, ok := q.(*ast.ReturnStmt)
+		if !ok {
+			return true
+		}
+		n++
+		okc := false
+		if len(rs.Results) == 1 {
+			if call, ok := unparen(rs.Results[0]).(*ast.CallExpr); ok && strings.HasPrefix(calleeName(info, call), "gojq.binopTypeSwitch") {
+				okc = true
+			}
+		}
+		if !okc {
+			bad++
+			r.Bad("return:"+c.Src(rs), rs.Pos(), "Compare returns `%s` without going through binopTypeSwitch: a second comparison algorithm for the operands that reach this return", c.Src(rs))
+		}
+		return true
+	}
+	ast.Inspect(fd.Body, visit)
+	if n == 0 {
+		r.Undecided("returns", fd.Pos(), "Compare has no return statement")
+	} else if bad == 0 {
+		r.OK("dispatch", fd.Pos(), "all %d returns of Compare are the binopTypeSwitch dispatch", n)
+	}
+}
+
+func ruleHaltStatus(c *Ctx, r *Rep) {
+	p := c.Cli
+	info := p.TypesInfo
+	fd := c.Decl(p, "cli.process")
+	if fd == nil {
+		r.Undecided("anchor", token.NoPos, "cli.process not found")
+		return
+	}
+	// the function's status variable: the `var err error` declared at the top
+	var errObj types.Object
+	for _, st := range fd.Body.List {
+		if ds, ok := st.(*ast.DeclStmt); ok {
+			if gd, ok := ds.Decl.(*ast.GenDecl); ok {
+				for _, sp := range gd.Specs {
+					if vs, ok := sp.(*ast.ValueSpec); ok && len(vs.Names) == 1 && types.TypeString(info.TypeOf(vs.Names[0]), nil) == "error" {
+						errObj = info.Defs[vs.Names[0]]
+					}
+				}
+			}
+		}
+	}
+	if errObj == nil {
+		r.Undecided("status-var", fd.Pos(), "no `var err error` at the top of cli.process")
+		return
+	}
+	n := 0
+	ast.Inspect(fd.Body, func(q ast.Node) bool {
+		as, ok := q.(*ast.AssignStmt)
+		if !ok || len(as.Lhs) != 1 || len(as.Rhs) != 1 {
+			return true
+		}
+		id, ok := as.Lhs[0].(*ast.Ident)
+		if !ok || info.Uses[id] != errObj {
+			return true
+		}
+		n++
+		rid, isIdent := unparen(as.Rhs[0]).(*ast.Ident)
+		good := isIdent && info.Uses[rid] != errObj
+		r.Check(good, fmt.Sprintf("assign:%s", c.Src(as)), as.Pos(), "cli.process records the status with `%s`: the current error itself: %v (first-error-wins loses the status of a later halt: `echo 1 2 | gojq 'if .==1 then error(\"x\") else halt_error(3) end'` must exit 3)", c.Src(as), good)
+		return true
+	})
+	if n == 0 {
+		r.Undecided("census", fd.Pos(), "cli.process never assigns its status variable")
+	}
+}
+
+func ruleFileVerbatim(c *Ctx, r *Rep) {
+	p := c.Cli
+	info := p.TypesInfo
+	fd := c.Decl(p, "cli.runInternal")
+	if fd == nil {
+		r.Undecided("anchor", token.NoPos, "cli.runInternal not found")
+		return
+	}
+	// src, err := os.ReadFile(…)
+	var srcObj types.Object
+	ast.Inspect(fd.Body, func(q ast.Node) bool {
+		as, ok := q.(*ast.AssignStmt)
+		if !ok || len(as.Rhs) != 1 {
+			return true
+		}
+		if call, ok := unparen(as.Rhs[0]).(*ast.CallExpr); ok && calleeName(info, call) == "os.ReadFile" && len(as.Lhs) >= 1 {
+			if id, ok := as.Lhs[0].(*ast.Ident); ok {
+				srcObj = info.ObjectOf(id)
+			}
+		}
+		return true
+	})
+	if srcObj == nil {
+		r.Undecided("readfile", fd.Pos(), "no `src, err := os.ReadFile(…)` in cli.runInternal")
+		return
+	}
+	n := 0
+	ast.Inspect(fd.Body, func(q ast.Node) bool {
+		as, ok := q.(*ast.AssignStmt)
+		if !ok {
+			return true
+		}
+		for _, rhs := range as.Rhs {
+			uses := false
+			ast.Inspect(rhs, func(w ast.Node) bool {
+				if id, ok := w.(*ast.Ident); ok && info.Uses[id] == srcObj {
+					uses = true
+				}
+				return true
+			})
+			if !uses {
+				continue
+			}
+			n++
+			good := false
+			if call, ok := unparen(rhs).(*ast.CallExpr); ok && len(call.Args) == 1 {
+				if tv, ok := info.Types[call.Fun]; ok && tv.IsType() && types.TypeString(tv.Type, nil) == "string" {
+					if id, ok := unparen(call.Args[0]).(*ast.Ident); ok && info.Uses[id] == srcObj {
+						good = true
+					}
+				}
+			}
+			r.Check(good, "queryfile:"+c.Src(rhs), rhs.Pos(), "the query file's bytes become the query text as `%s`: exactly string(src): %v (a normalisation of line ends, for instance, lets a raw CR inside a string literal through that the same text given as an argument is rejected for)", c.Src(rhs), good)
+		}
+		return true
+	})
+	if n == 0 {
+		r.Undecided("census", fd.Pos(), "the bytes read from the query file are never used")
+	}
+}
+
+// ---------------------------------------------------------------------------------------------------------------------
+
+func init() {
+	reg(&Rule{ID: "R-C06-poolalias", Props: []string{"C06", "C05", "C12"}, Floor: 1,
+		Doc: "a function that gives an object back to a sync.Pool (Put, also deferred) returns nothing that aliases it: b.Bytes() of a pooled buffer is overwritten by the next caller while the previous result is still in use",
+		Run: rulePoolAlias})
+	reg(&Rule{ID: "R-C06-cacheimmut", Props: []string{"C06"}, Floor: 1,
+		Doc: "what is published in a sync.Map cache is immutable: no field of a struct type whose pointer is stored in a sync.Map is assigned outside a composite literal (a lazily filled field of a shared cache entry is an unsynchronised write under concurrent runs)",
+		Run: ruleCacheImmut})
+}
+
+func rulePoolAlias(c *Ctx, r *Rep) {
+	n := 0
+	for _, p := range []*packages.Package{c.Gojq, c.Cli} {
+		info := p.TypesInfo
+		for _, fd := range c.Decls(p) {
+			if fd.Body == nil {
+				continue
+			}
+			var pooled []types.Object
+			ast.Inspect(fd.Body, func(q ast.Node) bool {
+				call, ok := q.(*ast.CallExpr)
+				if !ok {
+					return true
+				}
+				if o := callee(info, call); o != nil && objPath(o) == "sync.(Pool).Put" && len(call.Args) == 1 {
+					if id, ok := unparen(call.Args[0]).(*ast.Ident); ok {
+						pooled = append(pooled, info.Uses[id])
+					}
+				}
+				return true
+			})
+			if len(pooled) == 0 {
+				continue
+			}
+			ast.Inspect(fd.Body, func(q ast.Node) bool {
+				if _, isLit := q.(*ast.FuncLit); isLit {
+					return false
+				}
+				rs, ok := q.(*ast.ReturnStmt)
+				if !ok {
+					return true
+				}
+				for _, res := range rs.Results {
+					t := info.TypeOf(res)
+					if t == nil {
+						continue
+					}
+					switch t.Underlying().(type) {
+					case *types.Slice, *types.Pointer, *types.Map, *types.Interface:
+					default:
+						continue
+					}
+					// copies
+					if call, ok := unparen(res).(*ast.CallExpr); ok {
+						switch calleeName(info, call) {
+						case "bytes.Clone", "slices.Clone", "maps.Clone":
+							continue
+						}
+						if id, ok := call.Fun.(*ast.Ident); ok && id.Name == "append" {
+							continue
+						}
+					}
+					mentions := false
+					ast.Inspect(res, func(w ast.Node) bool {
+						if id, ok := w.(*ast.Ident); ok {
+							for _, o := range pooled {
+								if info.Uses[id] == o {
+									mentions = true
+								}
+							}
+						}
+						return true
+					})
+					n++
+					r.Check(!mentions, fmt.Sprintf("pool:%s:%s", declKey(fd), c.Src(res)), res.Pos(), "%s returns `%s` and gives the object it is taken from back to a sync.Pool: result independent of the pooled object: %v (the next Get hands the same storage to another caller; a retained result turns into that caller's text)", declKey(fd), c.Src(res), !mentions)
+				}
+				return true
+			})
+		}
+	}
+	if n == 0 {
+		r.OK("census", token.NoPos, "no function in gojq or cli returns a reference while giving an object back to a sync.Pool")
+	}
+}
+
+func ruleCacheImmut(c *Ctx, r *Rep) {
+	p := c.Gojq
+	info := p.TypesInfo
+	// struct types (of package gojq) whose pointers are stored in a sync.Map
+	cached := map[*types.Named]token.Pos{}
+	for _, fd := range c.Decls(p) {
+		if fd.Body == nil {
+			continue
+		}
+		ast.Inspect(fd.Body, func(q ast.Node) bool {
+			call, ok := q.(*ast.CallExpr)
+			if !ok {
+				return true
+			}
+			o := callee(info, call)
+			if o == nil {
+				return true
+			}
+			switch objPath(o) {
+			case "sync.(Map).Store", "sync.(Map).LoadOrStore", "sync.(Map).Swap":
+			default:
+				return true
+			}
+			if len(call.Args) < 2 {
+				return true
+			}
+			if nt := namedOf(derefType(info.TypeOf(call.Args[1]))); nt != nil && nt.Obj().Pkg() != nil && nt.Obj().Pkg().Path() == pathGojq {
+				if _, isStruct := nt.Underlying().(*types.Struct); isStruct {
+					cached[nt] = call.Pos()
+				}
+			}
+			return true
+		})
+	}
+	if len(cached) == 0 {
+		r.OK("census", token.NoPos, "no struct type of package gojq is stored in a sync.Map (the regexp cache stores *regexp.Regexp, guarded by R-C06-regexpmut)")
+		return
+	}
+	n := 0
+	for _, fd := range c.Decls(p) {
+		if fd.Body == nil {
+			continue
+		}
+		ast.Inspect(fd.Body, func(q ast.Node) bool {
+			as, ok := q.(*ast.AssignStmt)
+			if !ok {
+				return true
+			}
+			for _, l := range as.Lhs {
+				sel, ok := unparen(l).(*ast.SelectorExpr)
+				if !ok {
+					continue
+				}
+				s := info.Selections[sel]
+				if s == nil || s.Kind() != types.FieldVal {
+					continue
+				}
+				nt := namedOf(derefType(s.Recv()))
+				if nt == nil {
+					continue
+				}
+				if pos, ok := cached[nt]; ok {
+					n++
+					r.Bad(fmt.Sprintf("field:%s:%s.%s", declKey(fd), nt.Obj().Name(), sel.Sel.Name), as.Pos(), "%s assigns %s.%s, a field of a type whose values are published in a sync.Map (stored at %s): concurrent runs of the same Code share the entry, so this is an unsynchronised write (identical outputs, visible only to the race detector)", declKey(fd), nt.Obj().Name(), sel.Sel.Name, c.Pos(pos))
+				}
+			}
+			return true
+		})
+	}
+	if n == 0 {
+		r.OK("immutable", token.NoPos, "%d cached struct types, no field of them assigned outside a composite literal", len(cached))
+	}
+}
+
+// ---------------------------------------------------------------------------------------------------------------------
+
+func init() {
+	reg(&Rule{ID: "R-C01-forkcover", Props: []string{"C01", "C20"}, Floor: 2,
+		Doc: "every integer field of env that forward execution changes is snapshotted by pushfork and reinstated by popfork (pc travels as the fork's own pc; label is an id generator that must not go back): R-C01-forkpair checks the fields the fork has, this rule that it has all it needs",
+		Run: ruleForkCover})
+	reg(&Rule{ID: "R-C20-scopeorder", Props: []string{"C20", "C01"}, Floor: 2,
+		Doc: "in the opscope clause every read of env.offset that sizes or places the new frame comes after the popscope() of the frame-replacing tail call on every path: an offset read before it is the released frame's end, so the slots popscope just released are never reused",
+		Run: ruleScopeOrder})
+}
+
+func ruleForkCover(c *Ctx, r *Rep) {
+	p := c.Gojq
+	info := p.TypesInfo
+	envT, _ := p.Types.Scope().Lookup("env").(*types.TypeName)
+	if envT == nil {
+		r.Undecided("anchor", token.NoPos, "type env not found")
+		return
+	}
+	st, _ := envT.Type().Underlying().(*types.Struct)
+	push, pop := c.Decl(p, "env.pushfork"), c.Decl(p, "env.popfork")
+	if st == nil || push == nil || pop == nil {
+		r.Undecided("anchor", token.NoPos, "env struct, pushfork or popfork not found")
+		return
+	}
+	exempt := map[string]string{
+		"pc":    "saved as the fork's own pc by the caller of pushfork",
+		"label": "a generator of unique label ids: restoring it would hand out an id that a pending forklabel still owns",
+	}
+	fieldOf := func(e ast.Expr) string {
+		sel, ok := unparen(e).(*ast.SelectorExpr)
+		if !ok {
+			return ""
+		}
+		s := info.Selections[sel]
+		if s == nil || s.Kind() != types.FieldVal || !isNamed(derefType(s.Recv()), pathGojq, "env") {
+			return ""
+		}
+		return sel.Sel.Name
+	}
+	// integer fields written anywhere except newEnv / pushfork / popfork
+	written := map[string]token.Pos{}
+	for _, fd := range c.Decls(p) {
+		if fd.Body == nil || fd == push || fd == pop || fd.Name.Name == "newEnv" {
+			continue
+		}
+		ast.Inspect(fd.Body, func(q ast.Node) bool {
+			switch x := q.(type) {
+			case *ast.AssignStmt:
+				for _, l := range x.Lhs {
+					if f := fieldOf(l); f != "" {
+						if _, ok := written[f]; !ok {
+							written[f] = x.Pos()
+						}
+					}
+				}
+			case *ast.IncDecStmt:
+				if f := fieldOf(x.X); f != "" {
+					if _, ok := written[f]; !ok {
+						written[f] = x.Pos()
+					}
+				}
+			}
+			return true
+		})
+	}
+	reads := func(fd *ast.FuncDecl, f string) bool {
+		found := false
+		ast.Inspect(fd.Body, func(q ast.Node) bool {
+			if e, ok := q.(ast.Expr); ok && fieldOf(e) == f {
+				found = true
+			}
+			return true
+		})
+		return found
+	}
+	assigns := func(fd *ast.FuncDecl, f string) bool {
+		found := false
+		ast.Inspect(fd.Body, func(q ast.Node) bool {
+			if as, ok := q.(*ast.AssignStmt); ok {
+				for _, l := range as.Lhs {
+					if fieldOf(l) == f {
+						found = true
+					}
+				}
+			}
+			return true
+		})
+		return found
+	}
+	n := 0
+	for i := 0; i < st.NumFields(); i++ {
+		fld := st.Field(i)
+		bt, ok := fld.Type().Underlying().(*types.Basic)
+		if !ok || bt.Info()&types.IsInteger == 0 {
+			continue
+		}
+		pos, w := written[fld.Name()]
+		if !w {
+			continue
+		}
+		n++
+		if why, ok := exempt[fld.Name()]; ok {
+			r.OK("field:"+fld.Name(), pos, "env.%s is changed by forward execution and deliberately not part of the snapshot: %s", fld.Name(), why)
+			continue
+		}
+		saved, restored := reads(push, fld.Name()), assigns(pop, fld.Name())
+		r.Check(saved && restored, "field:"+fld.Name(), pos, "env.%s is changed by forward execution (first at %s); pushfork reads it: %v, popfork reinstates it: %v (without it a frame left by backtracking instead of returning never gives its variable slots back, or a bracket depth survives into the alternative)", fld.Name(), c.Pos(pos), saved, restored)
+	}
+	if n < 2 {
+		r.Undecided("census", token.NoPos, "only %d integer fields of env are written by forward execution (offset and expdepth are expected)", n)
+	}
+}
+
+func ruleScopeOrder(c *Ctx, r *Rep) {
+	vm := getVM(c)
+	if vm.Err != "" {
+		r.Undecided("vm-model", token.NoPos, "%s", vm.Err)
+		return
+	}
+	cl := vm.ByOp["opscope"]
+	if cl == nil {
+		r.Undecided("anchor", token.NoPos, "no opscope clause")
+		return
+	}
+	// position of the popscope() call inside the clause
+	var popPos token.Pos
+	ast.Inspect(cl.CC, func(q ast.Node) bool {
+		if call, ok := q.(*ast.CallExpr); ok && vm.envMethod(call) == "popscope" {
+			popPos = call.Pos()
+		}
+		return true
+	})
+	if popPos == token.NoPos {
+		r.Undecided("popscope", cl.CC.Pos(), "the opscope clause does not call env.popscope()")
+		return
+	}
+	n := 0
+	ast.Inspect(cl.CC, func(q ast.Node) bool {
+		sel, ok := q.(*ast.SelectorExpr)
+		if !ok || sel.Sel.Name != "offset" {
+			return true
+		}
+		if s := vm.info.Selections[sel]; s == nil || !isNamed(derefType(s.Recv()), pathGojq, "env") {
+			return true
+		}
+		n++
+		r.Check(sel.Pos() > popPos, fmt.Sprintf("offset-use#%d", n), sel.Pos(), "the opscope clause uses env.offset at %s; the frame-replacing popscope() is at %s: after it: %v (read before it, the value is the end of the frame about to be released, and each tail call leaks the function's variable slots)", c.Pos(sel.Pos()), c.Pos(popPos), sel.Pos() > popPos)
+		return true
+	})
+	if n == 0 {
+		r.Undecided("census", cl.CC.Pos(), "the opscope clause never uses env.offset")
+	}
+}
+
+// ---------------------------------------------------------------------------------------------------------------------
+
+func init() {
+	reg(&Rule{ID: "R-C01-slotmonotone", Props: []string{"C01", "C20"}, Floor: 1,
+		Doc: "a scope's variable counter only grows: slots are never handed out twice within one frame, because a generator that owns a slot can be resumed after any later code of the frame has run",
+		Run: ruleSlotMonotone})
+}
+
+func ruleSlotMonotone(c *Ctx, r *Rep) {
+	p := c.Gojq
+	info := p.TypesInfo
+	n := 0
+	for _, fd := range c.Decls(p) {
+		if fd.Body == nil {
+			continue
+		}
+		ast.Inspect(fd.Body, func(q ast.Node) bool {
+			check := func(l ast.Expr, pos token.Pos, inc bool, how string) {
+				sel, ok := unparen(l).(*ast.SelectorExpr)
+				if !ok || sel.Sel.Name != "variablecnt" {
+					return
+				}
+				if s := info.Selections[sel]; s == nil || !isNamed(derefType(s.Recv()), pathGojq, "scopeinfo") {
+					return
+				}
+				n++
+				r.Check(inc, fmt.Sprintf("variablecnt:%s:%s", declKey(fd), how), pos, "%s changes scopeinfo.variablecnt by `%s`: an increment: %v (giving slots back lets later code of the same frame overwrite the bindings of a suspended generator: `reduce (1,2) as $x ((1 as $s | ($s,$s+10)); .+$x) | . as $y | …`)", declKey(fd), how, inc)
+			}
+			switch x := q.(type) {
+			case *ast.IncDecStmt:
+				check(x.X, x.Pos(), x.Tok == token.INC, c.Src(x))
+			case *ast.AssignStmt:
+				for i, l := range x.Lhs {
+					inc := x.Tok == token.ADD_ASSIGN
+					// v = v + k
+					if !inc && x.Tok == token.ASSIGN && i < len(x.Rhs) {
+						if be, ok := unparen(x.Rhs[i]).(*ast.BinaryExpr); ok && be.Op == token.ADD && c.Src(be.X) == c.Src(l) {
+							if k, ok := constInt(info, be.Y); ok && k > 0 {
+								inc = true
+							}
+						}
+					}
+					check(l, x.Pos(), inc, c.Src(x))
+				}
+			}
+			return true
+		})
+	}
+	if n == 0 {
+		r.Undecided("census", token.NoPos, "scopeinfo.variablecnt is never changed")
+	}
+}
+
+// ---------------------------------------------------------------------------------------------------------------------
+
+func init() {
+	reg(&Rule{ID: "R-C01-lookupfirst", Props: []string{"C01"}, Floor: 1,
+		Doc: "compileFunc consults the user's scopes before it treats any name specially: no branch that tests the function's name and returns precedes the lookupFuncOrVariable calls, so a definition or a filter parameter with a builtin's name shadows the builtin",
+		Run: ruleLookupFirst})
+}
+
+func ruleLookupFirst(c *Ctx, r *Rep) {
+	p := c.Gojq
+	info := p.TypesInfo
+	fd := c.Decl(p, "compiler.compileFunc")
+	if fd == nil {
+		r.Undecided("anchor", token.NoPos, "compiler.compileFunc not found")
+		return
+	}
+	// the last lookup call position among the leading lookups (both arities): names tested before the first one are captured
+	first := token.NoPos
+	ast.Inspect(fd.Body, func(q ast.Node) bool {
+		if call, ok := q.(*ast.CallExpr); ok && strings.HasSuffix(calleeName(info, call), "compiler.lookupFuncOrVariable") {
+			if first == token.NoPos || call.Pos() < first {
+				first = call.Pos()
+			}
+		}
+		return true
+	})
+	if first == token.NoPos {
+		r.Undecided("lookup", fd.Pos(), "compileFunc does not call lookupFuncOrVariable")
+		return
+	}
+	bad := 0
+	mentionsName := func(e ast.Expr) bool {
+		found := false
+		ast.Inspect(e, func(q ast.Node) bool {
+			if sel, ok := q.(*ast.SelectorExpr); ok && sel.Sel.Name == "Name" && isNamed(derefType(info.TypeOf(sel.X)), pathGojq, "Func") {
+				found = true
+			}
+			return true
+		})
+		return found
+	}
+	for _, st := range fd.Body.List {
+		if st.Pos() >= first {
+			break
+		}
+		switch x := st.(type) {
+		case *ast.IfStmt:
+			if mentionsName(x.Cond) && endsInReturn(x.Body) {
+				bad++
+				r.Bad("early:"+c.Src(x.Cond), x.Pos(), "compileFunc returns for `%s` before the user's scopes are consulted: `def not: …;`, a nested definition or a filter parameter of that name no longer shadows the builtin (every other special form is reached only after the lookup)", c.Src(x.Cond))
+			}
+		case *ast.SwitchStmt:
+			if x.Tag != nil && mentionsName(x.Tag) {
+				bad++
+				r.Bad("early:switch", x.Pos(), "compileFunc dispatches on the function's name before the user's scopes are consulted")
+			}
+		}
+	}
+	if bad == 0 {
+		r.OK("lookup-first", fd.Pos(), "no name-specific return precedes the scope lookup in compileFunc")
+	}
+}
